@@ -33,7 +33,13 @@ UnreadFailed(e) ==
      (IF e.returned /\ e.closest > 0 THEN {} ELSE {"C06_Terminates"})
   \cup (IF e.node_hung \/ e.panicked THEN {"C06_NodeAlive"} ELSE {})
   \cup (IF e.returned /\ e.items < 1 THEN {"C06_StreamComplete"} ELSE {})
-Failed(e) == IF e.e = "cache" THEN CacheFailed(e) ELSE IF e.e = "unread" THEN UnreadFailed(e) ELSE
+\* a dozen lookups that nobody answers: no reply was slow, so the request timeout has not grown, and a lookup among the same
+\* peers, answering again, takes no longer than before (+ one tick)
+BurstsFailed(e) ==
+     (IF e.tmax_ms > 500 THEN {"C06_TimeoutOnlyGrowsWithSlowReplies"} ELSE {})
+  \cup (IF e.probe_after_ms > e.probe_before_ms + 250 THEN {"C06_SilentPeersDoNotSlowLaterCalls"} ELSE {})
+  \cup (IF e.panicked THEN {"C06_NodeAlive"} ELSE {})
+Failed(e) == IF e.e = "cache" THEN CacheFailed(e) ELSE IF e.e = "unread" THEN UnreadFailed(e) ELSE IF e.e = "bursts" THEN BurstsFailed(e) ELSE
      UNION {CallFailed(e, e.calls[i]) : i \in 1..Len(e.calls)}
   \cup (IF e.panicked \/ e.hung THEN {"C06_NodeAlive"} ELSE {})
   \* the request timeout (start 500 ms) adapts to observed round trips: without any reply slower than 500 ms it must not grow
